@@ -97,7 +97,10 @@ T_Rewrite(e) == /\ e.ev = "Rewrite" /\ tph = "parsed"
 T_Convert(e) == /\ e.ev = "Convert" /\ tph \in {"written", "parsed", "dead"} /\ twr.res = "ok" /\ e.from = tcase.ver
                 /\ UNCHANGED <<tcase, twr, tph, tpm>>
                 /\ LET samev == SameConv(e)
-                       rep == IF tcase.kind = "m2" THEN RepNames(e.from, e.to) ELSE ContentNames
+                       \* skins: inside one layout family the family's header scalars are representable too (hdr_scalars)
+                       rep == IF tcase.kind = "m2" THEN RepNames(e.from, e.to)
+                              ELSE IF tcase.kind = "skin" /\ ((tcase.fmt = "skin_new") = (e.to \notin OldSkinVers)) /\ "hdr_scalars" \in Names
+                                   THEN ContentNames \cup {"hdr_scalars"} ELSE ContentNames
                        why == IF e.res # "ok" THEN {<<"convert-res", e.res>>}
                               ELSE (IF samev THEN Item("convert-same", DiffT(e.secs, Names)) ELSE Item("convert", DiffX(e.secs, rep)))
                                    \* the converted model carries the requested version: end of the (multi-step) path of M2Layout
